@@ -363,6 +363,26 @@ def run(chk):
                 got = {v: {o: c for o, c, _ in rows} for v, rows in tables.items()}
                 if rc != 0 or got != want:
                     chk.report("c17-corpus", payload, "%s: expected tables %s, got %s (status %d)" % (name, want, got, rc))
+        # the order of the tables follows the execution, not the spelling of the names: renaming one tracked local leaves the others in place
+        tmpl = ("function g() -> void { @tracked qubit %s; x(%s); measure %s; }\n"
+                "function main() -> void { @tracked qubit %s; @tracked qubit %s; @tracked qubit[2] %s; measure %s; x(%s); measure %s; measure %s; g(); }")
+        seqs = []
+        for names in (("w", "a", "b", "c"), ("w", "o", "b", "c"), ("w", "k2", "b", "c"), ("zz", "a", "b9", "c"), ("w", "a", "b", "aa")):
+            w, a, b, c = names
+            src = tmpl % (w, w, w, a, b, c, a, b, b, c)
+            path = os.path.join(tmp, "ord.bloch")
+            open(path, "w").write(src)
+            rc, out = vlib.sh([exe, "--shots=2", path], env={"BLOCH_NO_UPDATE_CHECK": "1"}, timeout=60)
+            out = re.sub(r"\x1b\[[0-9;]*m", "", out)
+            heads = [l for l in out.splitlines() if l.startswith(("qubit ", "qubit[] "))]
+            back = {"qubit " + w: "W", "qubit " + a: "A", "qubit " + b: "B", "qubit[] " + c: "C"}
+            seqs.append(([back.get(h, h) for h in heads], src))
+        stats["table_order_programs"] = len(seqs)
+        for sq, src in seqs[1:]:
+            if sq != seqs[0][0] or sorted(sq) != ["A", "B", "C", "W"]:
+                chk.report("c17-order", {"source": src, "tables_in_order": sq, "reference_order": seqs[0][0], "reference_source": seqs[0][1],
+                                         "how": "bloch --shots=2 <source>; list the table headers in the order printed"},
+                           "renaming a tracked local changed the order of the other variables' tables: %s vs %s" % (sq, seqs[0][0]))
     finally:
         shutil.rmtree(tmp, ignore_errors=True)
     chk.cov.update({"traces_validated_against_impl": stats["programs"], **stats,
